@@ -16,6 +16,7 @@ from __future__ import annotations
 import hashlib
 import multiprocessing
 import random
+import re
 
 from .. import common
 from .. import impl_c08 as I
@@ -29,12 +30,37 @@ TRUSTED = [
     'CPython eval(src, dict(context)) as the oracle of "evaluates as Python with context keys as variables" (sessions)',
 ]
 ASSUMPTIONS = [
-    'format(value, spec) is modelled on the sub-language [[fill]align][sign][0][width][s|d] for str/int/bool and the '
-    'empty spec for every kind (Format.specInDomain); other specs are rejected by the driver, not compared',
+    'format(value, spec) (Format.formatField, domain predicate Format.specInDomain) is modelled for str / int / bool on the '
+    'whole standard mini-language [[fill]align][sign][z][#][0][width][, or _][.precision][type] exactly as '
+    'Python/formatter_unicode.c does it: precision truncates a str and is an error on an int, grouping `,` (d / none) and '
+    '`_` (d: 3 digits; b o x X: 4 digits) including its interplay with zero padding (`{:08,}` -> 0,001,234), alternate '
+    'form `#` for b o x X, the integer types b o x X c n d, `+`/space signs, every error text (Cannot specify \',\' with '
+    '\'x\'., Precision not allowed …, Sign not allowed with integer format specifier \'c\', %c arg not in range(0x110000), '
+    '…); and the empty spec for every kind. OUTSIDE the domain (rejected by the driver, not compared): any non-empty spec '
+    'on a float and the float presentation types e E f F g G % on an int (repr algorithm of floats); a non-ASCII '
+    'character anywhere but the fill position; a width or precision of more than 4 digits; type c on a surrogate code '
+    'point. Type n is modelled under the C locale for LC_NUMERIC (no grouping; locale.localeconv() is checked at start-up)',
     'str()/repr() of bytes, of sets with 2+ members and of floats outside the dyadic range are outside the domain',
-    'attribute access is modelled as AttributeError except Opaque.ident; names that are real attributes of a modelled '
-    'type (Format.knownAttrs, checked against dir() at start-up) are rejected',
-    'the id-keyed memo of _get_formatted_iterable is unobservable on tree values with pure !py expressions',
+    'attribute access (Format.getAttr): the special-tag objects of pypyr/dsl.py have .value (SicString: its text; PyString: '
+    'its source text = common.py_src of the wire expression = Lean PyExpr.src; Jsonify: its payload) and the class '
+    'attribute .yaml_tag (!sic / !py / !jsonify); Opaque has .ident; every other name that is a real attribute of a '
+    'modelled type (Format.knownAttrs, checked against dir() at start-up: bound methods, int.real, Jsonify.scalar, …) '
+    'and every dunder name is rejected (outside the domain); anything else is AttributeError',
+    '!py evaluator (PypyrModel/PyEval.lean evalPy, FormatSession.lean evalPyW) - two known inaccuracies, both kept out of '
+    'the compared cases by harness/impl_c08.py py_in_domain (asserted in Gen.py_expr, filter + distribution keys '
+    'py-domain:* for both streams): (1) `len(…)` is SYNTAX of PyExpr, always the builtin - in Python `len` is a name '
+    'resolved in the namespace where a context key `len` (or an assignment expression `(len := …)` of the same '
+    'evaluation) wins, so the comment "Context keys win over builtins" in PyEval.lean does not hold for len: no generated '
+    'context key / assignment target is named len; (2) Num.add / sub / mul are exact on dyadic rationals and never round '
+    'to 53 bits, Python does: no generated !py applies + - * to an operand that can be a float (any name read by an '
+    'expression with + - * has a float-free context value; constants are never floats). Comparisons, ==, and/or/not, '
+    'len, indexing of floats are exact in both. A read of a builtin name that is not a context key is NameError in the '
+    'model and the builtin in Python: not generated in the grammar stream, skipped at comparison in sessions',
+    'the id-keyed memo of _get_formatted_iterable is not part of the tree-level models: Props/C09.lean proves it sound '
+    '(fmtH_memo_sound: any memo whose entries hold the formatted value of the CURRENT object at their address gives the '
+    'memo-free result) as long as no address of a memoised object is re-used while the memo lives — which the code '
+    'guarantees by keeping a reference (since /repo 2cfa9de; the lazy stream exercises containers whose members die '
+    'during the traversal)',
     'json.dumps TypeError messages are compared by kind only',
     'divergence: the model reports OutOfFuel where the implementation raises RecursionError',
     'sessions: !py with assignment expressions is modelled at the top level of a call (Format.PyW, getEvalString); '
@@ -56,7 +82,8 @@ DIRECTED_CTX = {'d': [
     ['bo', True], ['f', {'f': [3, 1]}], ['set', {'set': [1]}], ['sic', {'sic': 'x{y}'}],
     ['py', {'py': {'op': '+', 'a': {'n': 'i'}, 'b': {'c': 1}}}], ['js', {'jsonify': [1, '{i}']}], ['o', {'o': 3}],
     ['', 'emptykey'], ['neg', -5], ['e', ''], ['r1', '{r2}'], ['r2', 'v{i}'], ['r3', ['{r1}', 'a{r1}', 'a{r1:rf}']],
-    ['w', 6], ['sp', '>4'], ['rfk', 'rf'], ['esc', '{{i}}']]}
+    ['w', 6], ['sp', '>4'], ['rfk', 'rf'], ['esc', '{{i}}'], ['big', 1234567], ['h', 255], ['ch', 65], ['ffk', 'ff'],
+    ['gsp', '012,']]}
 DIRECTED = [
     '', 'plain', '{{', '}}', '{{}}', '{{i}}', 'a{{b}}c', '{i}', '{s}', '{l}', '{d}', '{t}', '{n}', '{bo}', '{f}', '{set}', '{o}',
     '{sic}', '{py}', '{js}', '{b}', '{e}', '{e:rf}', '{e:ff}', 'a{e}', '{r1}', '{r1:ff}', '{r1:rf}', 'x{r1}', 'x{r1:rf}',
@@ -75,6 +102,27 @@ DIRECTED = [
     '{r1!r:rf}', '{r1!s}', '{d!r:ff}', '{a} }', '{zz} }', '{i} {', '{i}{zz}', '{zz}{i:q}', '{s:q}{zz}', '{i!x}{zz}',
     '{l[0]x}', '{l[0].}', '{l[', '{l[0]', '{l!', '{l!r', '{l:', '{l:{', '{l!r:', '{l!rx}', '{l!r }', '{ i}', '{i }', '{i:}', '{i!r:}',
     'x{i:{d[k]:{i}}}', 'x{i:{w:{i:{i}}}}', 'x{i:{w:{d[k]}}}', '{i:{w:{d[k]}}}', 'x{s:>{w:{d[k]}}}', '{i:{w}}{i:{d[k]:{w}}}', '{s[0]}{s[1]}{s[2]}', 'é{s}€', '{s:é>6}', '{s:é^7}', '{i:😀<4}',
+    # nested specs: rf / ff / the whole spec from the context, second-level fields, positional names, lazy parse errors
+    '{r1:{rfk}}', 'x{r1:{ffk}}', '{r1:{ffk}}', '{r1!r:{rfk}}', '{big:{gsp}}', 'x{big:{gsp}}', '{i:{w:>3}}', '{s:>{w}}{i:{bo:0>2}}|',
+    '{i:{w:{zz}}}', '{i:{w!x:{zz}}}', '{i:{0}}', '{i:{}{}}', '{i:{w}{}}', '{i:{zz}{}', '{i:{w}{', '{i:>{w}{{}}}', '{s:{{}}}',
+    '{i:{w}}}', '{i:{l[9]}}', '{i:{l[k]}}', '{i:{d.k}}', '{i:{w.zz}}', '{i:{w!r}}', '{i:{s!a}}', '{i:{n}}', '{s:{e}}', '{s:{e}{rfk}}',
+    # the standard mini-language beyond [[fill]align][sign][0][width][s|d]
+    '{big:,}', '{big:_}', '{big:012,}', '{big:015_}', '{big:03,}', '{big:09,}', '{big:010,}', '{big:0=12,}', '{big:<012,}',
+    '{h:#x}', '{h:#X}', '{h:#b}', '{h:#o}', '{h:x}', '{h:X}', '{h:o}', '{h:b}', '{h:_b}', '{h:#010_b}', '{h:#_x}', '{h:,x}',
+    '{h:,_}', '{h:_,}', '{big:,,}', '{big:__}', '{neg:+,}', '{neg: #x}', '{neg:=+#8x}', '{neg:^#9b}', '{i:+}', '{i: }',
+    '{i:.2}', '{i:.2d}', '{i:5.1x}', '{i:.}', '{s:.2}', '{s:.0}', '{s:6.2}', '{s:*^7.2}', '{s:.}', '{s:.2s}', '{s:.2d}',
+    '{s:,}', '{s:_}', '{s:,_}', '{s:#}', '{s:z}', '{s:#s}', '{i:z}', '{i:zd}', '{ch:c}', '{ch:5c}', '{ch:05c}', '{ch:<4c}x',
+    '{ch:+c}', '{ch:#c}', '{ch:,c}', '{ch:.1c}', '{neg:c}', '{big:c}', '{i:n}', '{big:n}', '{big:,n}', '{big:9n}', '{bo:,}',
+    '{bo:#x}', '{bo:c}', '{bo:05}', '{i:e}', '{i:.2f}', '{i:,.1f}', '{f:.2f}', '{f:,}', '{n:,}', '{l:.2}', 'a{big:{w},}',
+    '{big:{w}_x}', '{h:#{w}b}', '{s:.{w}}', '{s:{w}.{bo:d}}',
+    # attributes of the special-tag objects
+    '{sic.value}', '{sic.yaml_tag}', '{py.value}', '{py.yaml_tag}', '{js.value}', '{js.yaml_tag}', '{js.value[1]}',
+    '{sic.value[0]}', 'a{sic.value}', '{sic.value:ff}', '{sic.value:rf}', '{i.value}', '{d.value}', '{o.value}', '{o.yaml_tag}',
+    '{s.yaml_tag}', '{js.scalar}', '{sic.value!r}', '{py.value!r:>12}', '{js.value!r}', 'x{js.value[1]:rf}', '{sic.value.zz}',
+    '{sic.yaml_tag[0]}{py.yaml_tag[1]}',
+    # a missing key at a later position: the key-lookup error, whatever surrounds it
+    '{i!r:>{w}} {r1:rf}|{zz[0]:>4}{i:q} {', '{i}{s:q}{zz}', '{i:{w}}{zz}{', '{r1:rf}{zz}', '{i!x}{s:=5}{zz.a}{', '{l[9]}{zz}',
+    '{i!x:ff}{zz}', '{i:{zz}}{nokey}', '{r1:{rfk}}{zz}}', '{i:{w:{w}}}{zz}', '{i:{w:>3}}{zz}', '{s:{w}}{i:{}}{zz}',
 ]
 
 
@@ -89,6 +137,20 @@ def attr_table_check(drv, res):
     if bad:
         res.mismatch({'kind': 'attr-table'}, 'in domain (model says getattr fails)', bad,
                      'real attribute names the model treats as missing')
+    # `value` / `yaml_tag` are modelled: instance / class attribute of the three special tags, of nothing else
+    tags = (SicString, PyString, Jsonify)
+    wrong = [(type(v).__name__, a) for v in vals for a in ('value', 'yaml_tag') if hasattr(v, a) != isinstance(v, tags)]
+    want = {'SicString': '!sic', 'PyString': '!py', 'Jsonify': '!jsonify'}
+    wrong += [(t.__name__, t.yaml_tag) for t in tags if t.yaml_tag != want[t.__name__]]
+    if wrong:
+        res.mismatch({'kind': 'attr-table'}, 'value / yaml_tag on the special tags only', wrong,
+                     'Format.getAttr models .value / .yaml_tag on SicString, PyString, Jsonify only')
+    # the presentation type `n` is modelled under the C locale for LC_NUMERIC
+    import locale
+    lc = locale.localeconv()
+    if lc.get('thousands_sep') or lc.get('grouping') or lc.get('decimal_point') != '.':
+        res.mismatch({'kind': 'locale'}, 'C locale for LC_NUMERIC', {k: lc.get(k) for k in ('thousands_sep', 'grouping', 'decimal_point')},
+                     "format type 'n' is modelled without locale grouping")
 
 
 def case_key(case):
@@ -204,6 +266,8 @@ def check_cases(drv, cases, out):
         if sp is not None and not isinstance(sp, common.Reject) and k != 'cyclic':
             if spec_hypotheses(c['v']):
                 count('spec-oracle:compared')
+                if any(n is not None and '{' in sp for _, n, sp, _ in I.top_fields(c['v'])):
+                    count('spec-oracle:compared:nested-spec')
                 if I.model_obs(sp) != impl:
                     if single_conversion(c['v']):
                         # known deviation: the converted text is formatted again (see Props/C08.lean,
@@ -216,7 +280,7 @@ def check_cases(drv, cases, out):
                                               sig, impl))
         # python-side monitors
         if isinstance(c['v'], str):
-            for clause, detail, sig, obs in I.monitor_string(c['ctx'], c['v']):
+            for clause, detail, sig, obs in I.monitor_string(c['ctx'], c['v'], count):
                 out['violations'].append((c, f'{clause}: {detail}'[:600], sig, obs))
             count('monitor:string')
         else:
@@ -225,6 +289,108 @@ def check_cases(drv, cases, out):
                 out['violations'].append((c, f'{clause}: {detail}'[:600], sig, obs))
             if isinstance(c['v'], dict) and ({'sic', 'py', 'jsonify'} & set(c['v'])):
                 count('monitor:special-tag')
+
+
+# ---- LAZILY MATERIALISING containers (the parent of the id-keyed memo defect repaired by /repo 2cfa9de) --------
+#
+# case = {'kind': 'lazy', 'shape': 'seq'|'seqgen'|'map'|'set', 'place': 'top'|'member'|'ctx'|'ctx-rf',
+#         'ctx': wire dict, 'items': [format strings of the C08 grammar …] (map: [[key, value] …])}
+# The container classes live in harness/impl_c09.py (LazySeq / LazyGenSeq / LazyMap / LazySet: iteration creates
+# fresh equal-content members). Monitor from the property text: EACH MEMBER IS FORMATTED AS ITSELF — the result
+# holds, member by member, what `get_formatted_value` of that member alone gives. Model: Format.fmtVal of the
+# plain list / dict / set with the same members.
+
+def make_lazy_cases(rng, n):
+    g = I.Gen(rng)
+    cases = []
+    while len(cases) < n:
+        ctxw, refs = g.context()
+        want = rng.choice([2, 4, 5, 6, 8, 9, 12])
+        shape = rng.choice(['seq', 'seq', 'seqgen', 'map', 'set'])
+        strings, tries = [], 0
+        while len(strings) < want and tries < 6 * want:
+            tries += 1
+            s = g.fmt_string(refs, small=rng.random() < 0.7)
+            if ('{' not in s) and rng.random() < 0.7:
+                continue
+            alone = I.impl_fmt(ctxw, s)
+            # mostly members that format on their own (else the whole call just raises the first error)
+            if 'ok' in alone or rng.random() < 0.03:
+                strings.append(s)
+        if shape == 'map':
+            items = [[rng.choice(['p%d', 'key %d']) % j if rng.random() < 0.6 else f'{j}-' + s, s2]
+                     for j, (s, s2) in enumerate(zip(strings, strings[1:] + strings[:1]))]
+        elif shape == 'set':
+            items = list(dict.fromkeys(strings))
+        else:
+            q = rng.random()
+            items = strings if q < 0.7 else [{'t': [s, j]} for j, s in enumerate(strings)] if q < 0.85 \
+                else [[s] if j % 2 else s for j, s in enumerate(strings)]
+        cases.append({'kind': 'lazy', 'shape': shape, 'place': rng.choice(['top', 'top', 'member', 'ctx', 'ctx-rf']),
+                      'ctx': ctxw, 'items': items})
+    return cases
+
+
+LAZY_DIRECTED = [
+    {'kind': 'lazy', 'shape': sh, 'place': pl, 'ctx': DIRECTED_CTX, 'items': items}
+    for sh in ('seq', 'seqgen', 'set') for pl in ('top', 'member', 'ctx', 'ctx-rf')
+    for items in (['a{i}', 'b{s}', 'c{w}', 'd{neg}', 'e{bo}', 'f{n}', 'g{i:>4}', 'h{s!r}', 'i{d[k]}', 'j{l[1]}', 'k{r2}', 'l{e}'],
+                  ['{i:{w}}', '{s:>{w}}', '{neg:=+{w}}', '{r1}', '{r1:ff}', '{r1:rf}', '{r3[1]}', 'x{r1:rf}', '{sic}', 'a{py}'])
+] + [
+    {'kind': 'lazy', 'shape': 'map', 'place': pl, 'ctx': DIRECTED_CTX,
+     'items': [['k{i}', 'v{w}'], ['k{w}', '{l}'], ['k{neg}', '{d[n]}'], ['k{s}', 'a{r1}'], ['k{bo}', '{r1:rf}'], ['k{e}', '{i:03}'],
+               ['plain', '{s!a}'], ['k{d[k]}', ['{i}', '{w}']]]}
+    for pl in ('top', 'member', 'ctx', 'ctx-rf')]
+
+
+def check_lazy(drv, cases, out):
+    from .. import impl_c09 as L
+    reqs = []
+    for c in cases:
+        plain = L.lazy_model_value(c)
+        ctx = {'d': list(c['ctx']['d'])}
+        if c['place'] in ('ctx', 'ctx-rf'):
+            ctx['d'] = ctx['d'] + [['lz', plain]]
+        v = {'top': plain, 'member': [plain, 'tail'], 'ctx': '{lz}', 'ctx-rf': '{lz:rf}'}[c['place']]
+        reqs.append(('format.fmt', {'ctx': ctx, 'v': v}))
+    answers = drv.ask_many(reqs)
+    cnt = out['counts']
+
+    def count(key, by=1):
+        cnt[key] = cnt.get(key, 0) + by
+
+    for c, m in zip(cases, answers):
+        obs, fails = L.run_lazy(dict(c, ctx=c['ctx']['d']), encode=common.enc)
+        out['n'] += 1
+        out['nontrivial'].append(case_key(c))
+        count(f'lazy:{c["shape"]}:{c["place"]}')
+        count(f'lazy:members={min(len(c["items"]), 12)}')
+        count('lazy:outcome:' + ('ok' if 'ok' in obs else obs['err']))
+        for mon, detail in fails:
+            out['violations'].append((c, f'{mon}: {detail}'[:700],
+                                      {'monitor': mon, 'stream': 'lazy', 'container': c['shape']}, obs))
+        if isinstance(m, common.Reject):
+            count('lazy:rejected:' + str(m)[:40])
+            continue
+        if 'ok' in obs and isinstance(obs['ok'], dict) and 'unencodable' in obs['ok']:
+            count('lazy:unencodable-result')
+            continue
+        if 'ok' in m:
+            w = m['ok']
+            if c['place'] == 'member':
+                w = w[0]
+            model = {'ok': I.canon_w(w)}
+        else:
+            model = {'err': 'RecursionError' if m['err']['name'] == 'OutOfFuel' else m['err']['name']}
+        impl = {'err': obs['err']} if 'err' in obs else {'ok': I.canon_w(obs['ok'])}
+        if model != impl:
+            if c['shape'] == 'set' and ('err' in model or 'err' in impl or I.py_equal(model['ok'], impl['ok'])):
+                count('lazy:set-order-dependent')          # which member fails first / survives is not an observable
+            elif 'ok' in model and 'ok' in impl and I.has_multi_set({'t': [c['items'], c['ctx']]}) \
+                    and I.py_equal(model['ok'], impl['ok']):
+                count('set-survivor-depends-on-iteration-order')
+            else:
+                out['mismatches'].append((c, model, impl, 'lazily materialising container vs Format.fmtVal of the plain one'))
 
 
 def model_call(call):
@@ -348,14 +514,16 @@ def result_kind(w):
 
 
 def spec_hypotheses(s):
-    """the hypotheses of fmtKeepType_refines_spec: parses, plain (brace-free) specs, named fields"""
+    """the hypotheses of fmtKeepType_refines_spec: the string parses and every TOP-LEVEL field is named (not empty /
+    all-digit). Format specs are unrestricted: nested replacement fields (any names, any depth) are covered by
+    Spec.expandSpec."""
     tups = I.top_fields(s)
     if tups is None:
         return False
     for _, n, sp, _ in tups:
         if n is None:
             continue
-        if n == '' or n.isdigit() or '{' in sp or '}' in sp:
+        if n == '' or n.isdigit():
             return False
     return True
 
@@ -372,6 +540,10 @@ def shape_of(s):
     n = sum(1 for l, _, _, _ in tups if l) + sum(1 for _, f, _, _ in tups if f is not None)
     flags = sorted({sp[:2] for _, f, sp, _ in tups if f is not None and sp[:2] in ('rf', 'ff')})
     return ('single' if n == 1 else 'mixed') + (':' + '+'.join(flags) if flags else '')
+
+
+SPEC_RE = re.compile(r'^(?:(?P<fill>.)?(?P<align>[<>=^]))?(?P<sign>[+\- ])?(?P<z>z)?(?P<alt>#)?(?P<zero>0)?(?P<width>\d+)?'
+                     r'(?P<sep>[,_]+)?(?P<prec>\.\d*)?(?P<type>.)?$', re.S)
 
 
 def feature_counts(s, count):
@@ -395,11 +567,49 @@ def feature_counts(s, count):
             count('feature:nested-spec')
         elif sp and sp not in ('rf', 'ff'):
             count('feature:spec')
+            body = sp[2:] if sp[:2] in ('rf', 'ff') else sp
+            m = SPEC_RE.match(body)
+            if m:
+                if m.group('sep'):
+                    count('feature:spec-grouping')
+                    if m.group('zero') or (m.group('fill') == '0' and m.group('align') == '='):
+                        count('feature:spec-grouping+zero-pad')
+                if m.group('prec') is not None:
+                    count('feature:spec-precision')
+                if m.group('alt'):
+                    count('feature:spec-alt')
+                if m.group('z'):
+                    count('feature:spec-z')
+                if m.group('type') and m.group('type') in 'boxXcn':
+                    count('feature:spec-inttype')
+                    count('feature:spec-inttype:' + m.group('type'))
+                if m.group('type') and m.group('type') in 'eEfFgG%':
+                    count('feature:spec-floattype(out of domain on int)')
+        for a in ('.value', '.yaml_tag'):
+            if a in n:
+                count('feature:attr' + a)
     if '{{' in s or '}}' in s:
         count('feature:escape')
 
 
-def make_cases(stream, rng, n):
+def make_cases(stream, rng, n, counts=None):
+    cases = _make_cases(stream, rng, n)
+    if stream in ('grammar', 'session'):
+        # the domain guard of the !py evaluator (I.py_in_domain): a case with a `len` shadowed by a context key /
+        # assignment target, with + - * that can meet a float, or reading a builtin name is dropped, and counted
+        kept = []
+        for c in cases:
+            why = I.case_py_domain(c)
+            if counts is not None:
+                key = f'py-domain:{stream}:' + ('in-domain' if why is None else 'filtered:' + why)
+                counts[key] = counts.get(key, 0) + 1
+            if why is None:
+                kept.append(c)
+        cases = kept
+    return cases
+
+
+def _make_cases(stream, rng, n):
     g = I.Gen(rng)
     cases = []
     if stream == 'grammar':
@@ -409,6 +619,8 @@ def make_cases(stream, rng, n):
         sg = I.SessGen(rng)
         for _ in range(n):
             cases.append(sg.case())
+    elif stream == 'lazy':
+        cases = make_lazy_cases(rng, n)
     else:
         for _ in range(n):
             q = rng.random()
@@ -433,6 +645,8 @@ def new_out():
 def check_stream(drv, stream, cases, out):
     if stream == 'session':
         check_sessions(drv, cases, out)
+    elif stream == 'lazy':
+        check_lazy(drv, cases, out)
     else:
         check_cases(drv, cases, out)
 
@@ -444,7 +658,7 @@ def run_chunk(args):
     drv = common.Driver()
     out = new_out()
     try:
-        check_stream(drv, stream, make_cases(stream, rng, n), out)
+        check_stream(drv, stream, make_cases(stream, rng, n, out['counts']), out)
     finally:
         drv.close()
     # keep the payload small
@@ -487,7 +701,11 @@ def run(env, res):
         'targets that are / are not / later become context keys; formatted strings and containers reading those names; '
         'context[k] = v and pop(k) between calls; arbitrary-Python !py with := inside comprehensions / lambdas and '
         'nested-scope reads (implementation-only calls) — each binding call followed by reads of the bound names via '
-        '!py name and {name}; every session is distinct and non-trivial')
+        '!py name and {name}; every session is distinct and non-trivial. '
+        'lazy stream: LAZILY MATERIALISING containers (custom Sequence / generator-Sequence / Mapping / Set whose iteration '
+        'creates fresh equal-content members, harness/impl_c09.py) of 2-12 grammar-stream strings (or fresh tuples / lists of '
+        'them) at top level, inside a list, as the target of {k} / {k:rf}: monitor "each member is formatted as itself" + '
+        'Format.fmtVal of the plain container with the same members')
     drv = env.driver
     attr_table_check(drv, res)
     # 1. directed cases
@@ -502,13 +720,15 @@ def run(env, res):
         directed.append({'kind': 'cyclic', 'ctx': {'d': [['a', '{b}'], ['b', '{a}']]}, 'v': s})
     check_cases(drv, directed, out)
     check_sessions(drv, [dict(kind='session', **d) for d in DIRECTED_SESSIONS], out)
+    check_lazy(drv, LAZY_DIRECTED, out)
     absorb(res, out)
     # 2. random streams
     n_g = env.n(3000, 200000)
     n_m = env.n(3000, 200000)
     n_s = env.n(1500, 60000)
+    n_l = env.n(300, 12000)
     jobs = []
-    for stream, total in (('grammar', n_g), ('malformed', n_m), ('session', n_s)):
+    for stream, total in (('grammar', n_g), ('malformed', n_m), ('session', n_s), ('lazy', n_l)):
         left = total
         while left > 0:
             n = min(CHUNK, left)
@@ -518,7 +738,7 @@ def run(env, res):
         for j in jobs:
             rng = random.Random(j[1])
             out = new_out()
-            check_stream(drv, j[0], make_cases(j[0], rng, j[2]), out)
+            check_stream(drv, j[0], make_cases(j[0], rng, j[2], out['counts']), out)
             absorb(res, out)
     else:
         with multiprocessing.get_context('fork').Pool(min(12, len(jobs))) as pool:
@@ -531,6 +751,6 @@ def replay(env, res, payload):
     if 'case' in case and 'kind' not in case:
         case = case['case']
     out = new_out()
-    check_stream(env.driver, 'session' if case.get('kind') == 'session' else 'other', [case], out)
+    check_stream(env.driver, case.get('kind') if case.get('kind') in ('session', 'lazy') else 'other', [case], out)
     absorb(res, out)
     res.rule = 'replay of one recorded case'
